@@ -488,6 +488,14 @@ class Runner:
                     seen(obj, d)
                 elif call == "finalize":
                     eng.finalize()
+                elif call == "drop":
+                    # the caller lets go of the object: it is collected now; a later call under this name gets a new object
+                    import gc
+                    del eng
+                    engines.pop(obj, None)
+                    gc.collect()
+                    engines[obj] = self.engine(h["kinds"][obj], bool(h.get("factories")))
+                    own.pop(obj, None)
                 else:
                     raise ValueError(call)
             except Exception as e:  # an exception out of a lifecycle call is an outcome
